@@ -18,6 +18,37 @@ pub struct BTreeMap<K, V> { _p: PhantomData<(K, V)> }
 impl<K, V> BTreeMap<K, V> {
     pub uninterp spec fn view(&self) -> Map<K, V>;
     #[verifier::external_body]
+    pub fn insert(&mut self, k: K, v: V) -> (r: Option<V>)
+        ensures final(self)@ == old(self)@.insert(k, v),
+    { unimplemented!() }
+    #[verifier::external_body]
+    pub fn verif_remove_str(&mut self, k: &str) -> (r: Option<V>) where K: VerifStrKey
+        ensures
+            r is Some <==> old(self)@.contains_key(K::spec_from_str(k)),
+            final(self)@ == old(self)@.remove(K::spec_from_str(k)),
+    { unimplemented!() }
+    #[verifier::external_body]
+    pub fn verif_get_mut_str(&mut self, k: &str) -> (r: Option<&mut V>) where K: VerifStrKey
+        ensures
+            match r {
+                Some(v) => old(self)@.contains_key(K::spec_from_str(k)) && *v == old(self)@[K::spec_from_str(k)]
+                           && final(self)@ == old(self)@.insert(K::spec_from_str(k), *final(v)),
+                None => !old(self)@.contains_key(K::spec_from_str(k)) && final(self)@ == old(self)@,
+            },
+    { unimplemented!() }
+    #[verifier::external_body]
+    pub fn remove(&mut self, k: &K) -> (r: Option<V>)
+        ensures
+            r is Some <==> old(self)@.contains_key(*k),
+            final(self)@ == old(self)@.remove(*k),
+    { unimplemented!() }
+    #[verifier::external_body]
+    pub fn len(&self) -> (r: usize) ensures r == self@.len(), self@.dom().finite() { unimplemented!() }
+    #[verifier::external_body]
+    pub fn contains_key(&self, k: &K) -> (r: bool) ensures r == self@.contains_key(*k) { unimplemented!() }
+    #[verifier::external_body]
+    pub fn verif_contains_key_str(&self, k: &str) -> (r: bool) where K: VerifStrKey ensures r == self@.contains_key(K::spec_from_str(k)) { unimplemented!() }
+    #[verifier::external_body]
     pub fn get_mut(&mut self, k: &K) -> (r: Option<&mut V>)
         ensures
             match r {
@@ -27,6 +58,11 @@ impl<K, V> BTreeMap<K, V> {
             },
     { unimplemented!() }
 }
+// lookups by `&str` in a map keyed by String (Borrow<str>): the key a &str designates
+pub trait VerifStrKey: Sized { spec fn spec_from_str(s: &str) -> Self; }
+impl VerifStrKey for String { uninterp spec fn spec_from_str(s: &str) -> String; }
+#[verifier::external_body]
+pub fn verif_str_to_owned(s: &str) -> (r: String) ensures r == String::spec_from_str(s) { unimplemented!() }
 #[verifier::external_body]
 #[verifier::reject_recursive_types(K)]
 #[verifier::reject_recursive_types(V)]
@@ -69,7 +105,7 @@ impl<K, V> HashMap<K, V> {
     { unimplemented!() }
     #[verifier::external_body]
     pub fn remove(&mut self, k: &K) -> (r: Option<V>)
-        ensures final(self)@ == old(self)@.remove(*k),
+        ensures r is Some <==> old(self)@.contains_key(*k), final(self)@ == old(self)@.remove(*k),
     { unimplemented!() }
 }
 // `map.entry(k).or_default()` (std: returns the stored value, inserting V::default() first when absent)
@@ -89,7 +125,9 @@ pub struct SocketAddr { _p: () }
 #[verifier::external_body]
 #[derive(Clone, Copy)]
 pub struct SocketAddress { _p: () }
-#[verifier::external_body] pub struct Cluster { _p: () }
+#[verifier::external_body] pub struct UdpClusterConfig { _p: () }
+#[verifier::external_body] pub struct HealthCheckConfig { _p: () }
+impl HealthCheckConfig { #[verifier::external_body] pub fn to_owned(&self) -> (r: Self) ensures r == *self { unimplemented!() } }
 #[verifier::external_body] pub struct Backend { _p: () }
 #[verifier::external_body] pub struct HttpFrontend { _p: () }
 #[verifier::external_body] pub struct TcpFrontend { _p: () }
@@ -155,6 +193,13 @@ pub fn validate_h2_flood_knobs_http(patch: &UpdateHttpListenerConfig) -> Result<
 #[verifier::external_body]
 pub fn validate_h2_flood_knobs_https(patch: &UpdateHttpsListenerConfig) -> Result<(), StateError> { unimplemented!() }
 #[verifier::external_body]
+pub fn validate_health_check_config(c: &HealthCheckConfig) -> Result<(), &'static str> { unimplemented!() }
+// derived Clone of prost messages (ASSUMED: yields an equal value)
+#[verifier::external_body]
+pub fn verif_cluster_clone(c: &Cluster) -> (r: Cluster) ensures r == *c { unimplemented!() }
+#[verifier::external_body]
+pub fn verif_string_clone2(s: &String) -> (r: String) ensures r == *s { unimplemented!() }
+#[verifier::external_body]
 pub fn validate_alpn_protocols(values: &[String]) -> Result<(), StateError> { unimplemented!() }
 #[verifier::external_body]
 pub fn validate_sozu_id_header(value: &str) -> Result<(), StateError> { unimplemented!() }
@@ -202,6 +247,9 @@ impl ListenerType {
 //@item command/src/proto/command.rs struct UdpListenerConfig
 //@item command/src/proto/command.rs struct UpdateTcpListenerConfig
 //@item command/src/proto/command.rs struct UpdateUdpListenerConfig
+//@item command/src/proto/command.rs struct Cluster
+//@item command/src/proto/command.rs struct SetHealthCheck
+//@item command/src/proto/command.rs struct RemoveListener
 
 // The configuration as mathematical maps (request_counts is a census of received requests, not
 // configuration: `dispatch` bumps it for rejected requests too; excluded by definition, see DESIGN C07).
@@ -221,6 +269,10 @@ pub open spec fn same_config(a: ConfigState, b: ConfigState) -> bool {
 // certificates as address -> (fingerprint -> certificate); an orphan empty bucket is a difference
 pub open spec fn certs_view(m: HashMap<SocketAddr, HashMap<Fingerprint, CertificateAndKey>>) -> Map<SocketAddr, Map<Fingerprint, CertificateAndKey>> {
     m@.map_values(|inner: HashMap<Fingerprint, CertificateAndKey>| inner@)
+}
+// "removes at most the object it names": every other key keeps its presence and value
+pub open spec fn only_key_removed<K, V>(a: Map<K, V>, b: Map<K, V>, k: K) -> bool {
+    b == a || b == a.remove(k)
 }
 // "changes only the object it names": same domain, every other key maps to the same value
 pub open spec fn only_key_changed<K, V>(a: Map<K, V>, b: Map<K, V>, k: K) -> bool {
@@ -393,6 +445,108 @@ impl ConfigState {
     //@        &&& only_key_changed(old(self).udp_listeners@, final(self).udp_listeners@, k)
     //@        &&& same_config(ConfigState { http_listeners: final(self).http_listeners, https_listeners: final(self).https_listeners,
     //@               tcp_listeners: final(self).tcp_listeners, udp_listeners: final(self).udp_listeners, ..*old(self) }, *final(self)) }), // [accepted-changes-only-named-listener]
+    //@end
+
+    //@fn command/src/state.rs ConfigState::remove_cluster
+    //@  ret r
+    //@  before "Err(StateError::NotFound {"
+    //@    assert(self.clusters@ =~= old(self).clusters@);
+    //@  substall "self.clusters.remove(cluster_id)" => "self.clusters.verif_remove_str(cluster_id)"
+    //@  substall "self.clusters.contains_key(cluster_id)" => "self.clusters.verif_contains_key_str(cluster_id)"
+    //@  subst "cluster_id.to_owned()" => "verif_str_to_owned(cluster_id)"
+    //@  ensures
+    //@    r is Err ==> same_config(*old(self), *final(self)),                                         // [rejected-leaves-no-trace]
+    //@    r is Ok ==> ({
+    //@        let k = String::spec_from_str(cluster_id);
+    //@        &&& old(self).clusters@.contains_key(k) && final(self).clusters@ == old(self).clusters@.remove(k)
+    //@        &&& same_config(ConfigState { clusters: final(self).clusters, ..*old(self) }, *final(self)) }), // [accepted-removes-only-the-named-cluster]
+    //@end
+
+    //@fn command/src/state.rs ConfigState::remove_health_check
+    //@  ret r
+    //@  subst "self.clusters.get_mut(cluster_id)" => "self.clusters.verif_get_mut_str(cluster_id)"
+    //@  subst "cluster_id.to_owned()" => "verif_str_to_owned(cluster_id)"
+    //@  ensures
+    //@    r is Err ==> same_config(*old(self), *final(self)),                                         // [rejected-leaves-no-trace]
+    //@    r is Ok ==> only_key_changed(old(self).clusters@, final(self).clusters@, String::spec_from_str(cluster_id))
+    //@        && same_config(ConfigState { clusters: final(self).clusters, ..*old(self) }, *final(self)), // [accepted-changes-only-the-named-cluster]
+    //@end
+
+    //@fn command/src/state.rs ConfigState::remove_http_listener
+    //@  ret r
+    //@  before "return Err(StateError::NoChange);"
+    //@    assert(self.http_listeners@ =~= old(self).http_listeners@);
+    //@  ensures
+    //@    r is Err ==> same_config(*old(self), *final(self)),                                         // [rejected-leaves-no-trace]
+    //@    r is Ok ==> final(self).http_listeners@ == old(self).http_listeners@.remove(*address)
+    //@        && same_config(ConfigState { http_listeners: final(self).http_listeners, ..*old(self) }, *final(self)), // [accepted-removes-only-the-named-listener]
+    //@end
+    //@fn command/src/state.rs ConfigState::remove_https_listener
+    //@  ret r
+    //@  before "return Err(StateError::NoChange);"
+    //@    assert(self.https_listeners@ =~= old(self).https_listeners@);
+    //@  ensures
+    //@    r is Err ==> same_config(*old(self), *final(self)),                                         // [rejected-leaves-no-trace]
+    //@    r is Ok ==> final(self).https_listeners@ == old(self).https_listeners@.remove(*address)
+    //@        && same_config(ConfigState { https_listeners: final(self).https_listeners, ..*old(self) }, *final(self)), // [accepted-removes-only-the-named-listener]
+    //@end
+    //@fn command/src/state.rs ConfigState::remove_tcp_listener
+    //@  ret r
+    //@  before "return Err(StateError::NoChange);"
+    //@    assert(self.tcp_listeners@ =~= old(self).tcp_listeners@);
+    //@  ensures
+    //@    r is Err ==> same_config(*old(self), *final(self)),                                         // [rejected-leaves-no-trace]
+    //@    r is Ok ==> final(self).tcp_listeners@ == old(self).tcp_listeners@.remove(*address)
+    //@        && same_config(ConfigState { tcp_listeners: final(self).tcp_listeners, ..*old(self) }, *final(self)), // [accepted-removes-only-the-named-listener]
+    //@end
+    //@fn command/src/state.rs ConfigState::remove_udp_listener
+    //@  ret r
+    //@  before "return Err(StateError::NoChange);"
+    //@    assert(self.udp_listeners@ =~= old(self).udp_listeners@);
+    //@  ensures
+    //@    r is Err ==> same_config(*old(self), *final(self)),                                         // [rejected-leaves-no-trace]
+    //@    r is Ok ==> final(self).udp_listeners@ == old(self).udp_listeners@.remove(*address)
+    //@        && same_config(ConfigState { udp_listeners: final(self).udp_listeners, ..*old(self) }, *final(self)), // [accepted-removes-only-the-named-listener]
+    //@end
+
+    //@fn command/src/state.rs ConfigState::set_health_check
+    //@  ret r
+    //@  subst "crate::config::validate_health_check_config(&set.config)" => "validate_health_check_config(&set.config)"
+    //@  subst "set.cluster_id.to_owned()" => "verif_string_clone(&set.cluster_id)"
+    //@  ensures
+    //@    r is Err ==> same_config(*old(self), *final(self)),                                         // [rejected-leaves-no-trace]
+    //@    r is Ok ==> only_key_changed(old(self).clusters@, final(self).clusters@, set.cluster_id)
+    //@        && same_config(ConfigState { clusters: final(self).clusters, ..*old(self) }, *final(self)), // [accepted-changes-only-the-named-cluster]
+    //@    r is Ok ==> final(self).clusters@[set.cluster_id].health_check == Some(set.config),          // [accepted-installs-the-config]
+    //@end
+
+    //@fn command/src/state.rs ConfigState::add_cluster
+    //@  ret r
+    //@  subst "crate::config::validate_health_check_config(hc)" => "validate_health_check_config(hc)"
+    //@  subst "cluster.clone()" => "verif_cluster_clone(cluster)"
+    //@  subst "cluster.cluster_id.clone()" => "verif_string_clone2(&cluster.cluster_id)"
+    //@  subst "insert(cluster_id.clone(), cluster)" => "insert(verif_string_clone2(&cluster_id), cluster)"
+    //@  drop_dassert 1 Option::map with a closure returning a reference; its content is the [accepted-upserts-the-named-cluster] clause
+    //@  ensures
+    //@    r is Err ==> same_config(*old(self), *final(self)),                                         // [rejected-leaves-no-trace]
+    //@    r is Ok ==> final(self).clusters@ == old(self).clusters@.insert(cluster.cluster_id, *cluster)
+    //@        && same_config(ConfigState { clusters: final(self).clusters, ..*old(self) }, *final(self)), // [accepted-upserts-the-named-cluster]
+    //@end
+
+    //@fn command/src/state.rs ConfigState::remove_listener
+    //@  ret r
+    //@  subst "ListenerType::try_from(remove.proxy).map_err(StateError::WrongFieldValue)?" => "(match ListenerType::try_from(remove.proxy) { Ok(t) => t, Err(e) => { return Err(StateError::WrongFieldValue(e)); } })"
+    //@  substall "&remove.address.into()" => "&verif_to_sockaddr(remove.address)"
+    //@  ensures
+    //@    r is Err ==> same_config(*old(self), *final(self)),                                         // [rejected-leaves-no-trace]
+    //@    r is Ok ==> ({
+    //@        let k = spec_to_sockaddr(remove.address);
+    //@        &&& only_key_removed(old(self).http_listeners@, final(self).http_listeners@, k)
+    //@        &&& only_key_removed(old(self).https_listeners@, final(self).https_listeners@, k)
+    //@        &&& only_key_removed(old(self).tcp_listeners@, final(self).tcp_listeners@, k)
+    //@        &&& only_key_removed(old(self).udp_listeners@, final(self).udp_listeners@, k)
+    //@        &&& same_config(ConfigState { http_listeners: final(self).http_listeners, https_listeners: final(self).https_listeners,
+    //@                tcp_listeners: final(self).tcp_listeners, udp_listeners: final(self).udp_listeners, ..*old(self) }, *final(self)) }), // [accepted-removes-only-the-named-listener]
     //@end
 }
 
